@@ -72,7 +72,7 @@ fn validate_table<const V6: bool, const MASK: usize>() {
  "bound": "listen address: every {2} address and port; every subset of listen protocols; credentials present/absent; reverse-proxy section #{1} (0 absent, 1 '', 2 '/', 3 '/a', 4 'a') with every origin port",
  "desc": "Settings::validate refuses to start exactly in the documented cases and names the failing section",
  "encodes": ["settings::Settings::validate", "settings::ReverseProxySettings::validate"],
- "quick": "[('false',0,'IPv4'),('false',3,'IPv4'),('true',4,'IPv6'),('false',1,'IPv4')]", "thorough": "[('true',0,'IPv6'),('true',2,'IPv6'),('false',2,'IPv4'),('false',4,'IPv4')]"}
+ "quick": "[('false',0,'IPv4'),('false',3,'IPv4'),('true',0,'IPv6'),('true',3,'IPv6'),('true',4,'IPv6'),('false',1,'IPv4')]", "thorough": "[('true',2,'IPv6'),('true',1,'IPv6'),('false',2,'IPv4'),('false',4,'IPv4')]"}
 @*/
 
 /// reference: decode the body of a TOML basic string (between the quotes); only the escapes \" and \\ occur in the alphabet
